@@ -1046,7 +1046,7 @@ example : liftCopySchema.apply (.replaceAround 4 8 4 7 ⟨[.elem 1 [] [] []], 1,
   refine apply_around_of_parts liftCopySchema exDoc 4 8 4 7 _ 1 [.elem 2 [] [] [.text [98] []]]
     ⟨[.elem 1 [] [] [], .elem 2 [] [] [.text [98] []]], 1, 0⟩ _ rfl rfl ?_ ?_ ?_
   · simp [Node.slice, exDoc, Node.kids, sliceKids, inRange, sliceScan, sliceHere, fcut, fcutLoop, depthAt]
-  · simp [Slice.insertAt, insertInto, flatInsert, fcut, fappend, addNode]
+  · simp [Slice.insertAt, Slice.size, insertInto, flatInsert, fcut, fappend, addNode]
   · have hv : liftCopySchema.validContent 0
         [.elem 1 [] [] [.elem 2 [] [] [.text [97] []]], .elem 2 [] [] [.text [98] []]] = false := by decide
     have hv1 : liftCopySchema.validContent 1 [.elem 2 [] [] [.text [97] []]] = true := by decide
@@ -1080,7 +1080,7 @@ example : liftNestSchema.apply (.replaceAround 4 9 5 9
   refine apply_around_of_parts liftNestSchema liftNestDoc 4 9 5 9 _ 1 [.elem 2 [] [] [.elem 3 [] [] []]]
     ⟨[.elem 2 [] [] [], .elem 2 [] [] [.elem 3 [] [] []], .elem 2 [] [] [.elem 1 [] [] []]], 1, 2⟩ _ rfl rfl ?_ ?_ ?_
   · simp [Node.slice, liftNestDoc, Node.kids, sliceKids, inRange, sliceScan, sliceHere, fcut, fcutLoop, depthAt]
-  · simp [Slice.insertAt, insertInto, flatInsert, fcut, fcutLoop, fappend, addNode]
+  · simp [Slice.insertAt, Slice.size, insertInto, flatInsert, fcut, fcutLoop, fappend, addNode]
   · have hv : liftNestSchema.validContent 2 [.elem 1 [] [] [.elem 2 [] [] [.elem 3 [] [] []]]] = false := by decide
     have hv1 : liftNestSchema.validContent 2 [.elem 3 [] [] []] = true := by decide
     have hv2 : liftNestSchema.validContent 1 [.elem 2 [] [] [.elem 3 [] [] []]] = true := by decide
